@@ -10,6 +10,9 @@ objects, then 2..12 API-level operations
 
   ['use', fid, [[ref, key, kwarg|None], ...], soft, ser, how]   Use -> get_task()
   ['map', opindex, fid]                                         use.map(f).get_task()
+  ['wrap', opindex, [ref, key, kwarg|None], soft, ser, defer]   Use.from_func(func=<the Use of op>, ...)
+                                                                [.get_task() unless defer]
+  ['get', opindex]                                              <the Use of op>.get_task() once more
   ['make', fac, mk]                                             factory.make(**mk)
   ['userun', ur, mk, kwarg|None, fid]                           @userun(kwarg, **mk) def f
   ['stats', 'task'|'test', name, [ref, ...]]                    task_stats / test_stats
@@ -43,12 +46,15 @@ SIBLING = {0: 1, 1: 0, 2: 5, 5: 2, 3: 4, 4: 3, 6: 7, 7: 6, 8: 9, 9: 8, 10: 11, 1
            12: 13, 13: 12, 14: 15, 15: 14}
 MKKEYS = ['k0', 'k1', 'k2']            # keyword arguments of make()
 SUBKEYS = ['env', 'umask']             # subprocess arguments
-NSLOTS = {'use': 1, 'map': 2, 'make': 1, 'stats': 1}
+NSLOTS = {'use': 1, 'map': 2, 'make': 1, 'stats': 1, 'get': 1}
+USE_OPS = ('use', 'map', 'userun', 'wrap')
 
 
 def nslots(case, op):
     if op[0] == 'userun':
         return 2 + len(case['useruns'][op[1]]['posts'])
+    if op[0] == 'wrap':
+        return 0 if op[5] else 1
     return NSLOTS[op[0]]
 
 
@@ -285,6 +291,23 @@ def run_op(world, k, op):
             task = new.get_task()
             below = list(task.depends_on)
             return [below[0] if len(below) == 1 else None, task]
+        if kind == 'wrap':
+            # a wrapper applied on top of an existing wrapper OBJECT
+            _, opi, (r, key, kw), soft, ser, defer = op
+            base = world.uses.get(opi)
+            task = world.ref(r)
+            if base is None or task is None:
+                return None
+            use = Use.from_func(func=base, task=task, key=key_of(key),
+                                kwarg=None if kw is None else KWARGS[kw],
+                                deps_type='soft' if soft else 'hard', serialize=ser)
+            world.uses[k] = use
+            return [] if defer else [use.get_task()]
+        if kind == 'get':
+            use = world.uses.get(op[1])
+            if use is None:
+                return None
+            return [use.get_task()]
         if kind == 'make':
             _, fac, mk = op
             kwargs = world.mk_kwargs(mk)
@@ -542,6 +565,21 @@ def oracle_op(ctx, book, world, case, k, op, res):
         cinj = [(below, 0, None)]
         book.use_req[k] = (fid, cinj, False, False)
         book.slot_class.append(use_step('map', fid, cinj, False, False, objs[1]))
+    elif kind == 'wrap':
+        _, opi, (r, key, kw), soft, ser, defer = op
+        ufid, uinj, _usoft, _user = book.use_req[opi]
+        cinj = list(uinj) + [(book.cls(r), key, kw)]
+        if isinstance(res, Exception):
+            check_result(ctx, book, case, 'wrap', None, res, (), (), None)
+            book.slot_class += [None] * n
+            return
+        book.use_req[k] = (ufid, cinj, soft, ser)
+        if not defer:
+            book.slot_class.append(use_step('wrap', ufid, cinj, soft, ser, objs[0]))
+    elif kind == 'get':
+        ufid, uinj, usoft, user = book.use_req[op[1]]
+        book.slot_class.append(use_step('get_task of an earlier wrapper', ufid, uinj, usoft, user,
+                                        objs[0]))
     elif kind == 'make':
         _, fac, mk = op
         book.slot_class.append(make_step('make', fac, mk, objs[0]))
@@ -756,6 +794,7 @@ def model_steps(case, world, book, results, observed):
     implementation returned'''
     steps = []
     use_reqs = {}
+    use_raw = {}                      # op index -> (fid, injections in application order)
 
     def ureq(fid, injs, soft, ser):
         args = [[t, key] for t, key, kw in injs if kw is None]
@@ -787,15 +826,28 @@ def model_steps(case, world, book, results, observed):
             continue
         if kind == 'use':
             _, fid, injs, soft, ser, _how = op
-            req = ureq(fid, [(world.num(world.ref(r)), key, kw) for r, key, kw in injs], soft, ser)
+            use_raw[k] = (fid, [(world.num(world.ref(r)), key, kw) for r, key, kw in injs])
+            req = ureq(fid, use_raw[k][1], soft, ser)
             use_reqs[k] = req
             steps.append({'use': req, 'res': outcome(res, 0)})
+        elif kind == 'wrap':
+            _, opi, (r, key, kw), soft, ser, defer = op
+            if isinstance(res, Exception):
+                continue
+            bfid, binj = use_raw[opi]
+            use_raw[k] = (bfid, binj + [(world.num(world.ref(r)), key, kw)])
+            use_reqs[k] = ureq(bfid, use_raw[k][1], soft, ser)
+            if not defer:
+                steps.append({'use': use_reqs[k], 'res': outcome(res, 0)})
+        elif kind == 'get':
+            steps.append({'use': use_reqs[op[1]], 'res': outcome(res, 0)})
         elif kind == 'map':
             _, opi, fid = op
             steps.append({'use': use_reqs[opi], 'res': outcome(res, 0)})
             if isinstance(res, Exception) or res[0] is None:
                 continue
-            req = ureq(fid, [(world.num(res[0]), 0, None)], False, False)
+            use_raw[k] = (fid, [(world.num(res[0]), 0, None)])
+            req = ureq(fid, use_raw[k][1], False, False)
             use_reqs[k] = req
             steps.append({'use': req, 'res': outcome(res, 1)})
         elif kind == 'make':
@@ -815,7 +867,8 @@ def model_steps(case, world, book, results, observed):
                 cur = res[1 + j]
             if cur is None:
                 continue
-            req = ureq(fid, [(world.num(cur), 0, kw)], False, False)
+            use_raw[k] = (fid, [(world.num(cur), 0, kw)])
+            req = ureq(fid, use_raw[k][1], False, False)
             use_reqs[k] = req
             steps.append({'use': req, 'res': outcome(res, len(res) - 1)})
         elif kind == 'stats':
@@ -975,6 +1028,14 @@ def corpus():
         case([['userun', 0, mk(extra=[1]), None, 6], ['userun', 1, mk(extra=[1]), None, 7],
               ['userun', 0, mk(extra=[1]), None, 7]],
              useruns=({'fac': 0, 'posts': [8]}, {'fac': 0, 'posts': [9]})),
+        # wrappers applied on top of ONE base wrapper object, then the earlier wrappers again
+        case([['use', 0, [[a, 0, 0]], False, False, 'direct'],
+              ['wrap', 0, [b, 0, 1], False, False, False], ['wrap', 0, [['b', 2], 0, 1], False, False, False],
+              ['get', 0], ['get', 1], ['get', 2], ['map', 1, 2]],
+             base=b2 + [{'name': 'c', 'hard': [], 'soft': []}], collect=[[['s', 0], ['s', 1], ['s', 2]]]),
+        case([['use', 2, [[a, 1, None]], False, False, 'stack'],
+              ['wrap', 0, [b, 0, None], False, False, True], ['wrap', 0, [b, 2, 0], True, False, False],
+              ['wrap', 1, [a, 0, 0], False, True, False], ['get', 1], ['get', 0], ['get', 2], ['get', 3]]),
         # task_stats / test_stats with the same name
         case([['stats', 'task', 'n', [a]], ['stats', 'test', 'n', [b]], ['stats', 'task', 'n', [b]]],
              collect=[[['s', 0]], [['s', 0], ['s', 1]]]),
@@ -1055,13 +1116,30 @@ def gen_case(rng):
                 'deps': [ref() for _ in range(rng.choice([0, 0, 0, 1, 1, 2]))],
                 'soft': [ref() for _ in range(rng.choice([0, 0, 0, 0, 1]))]}
 
+    def base_wrapper():
+        '''an earlier operation that made a Use object; mostly one that was
+        already wrapped or derived (several wrappers on ONE base)'''
+        cands = [k for k, o in enumerate(case['ops']) if o[0] in USE_OPS]
+        used = [o[1] for o in case['ops'] if o[0] in ('wrap', 'get', 'map')]
+        used = [k for k in used if k in cands]
+        if used and rng.random() < 0.5:
+            return rng.choice(used)
+        return rng.choice(cands) if cands else None
+
     def fresh():
+        r = rng.random()
+        base = base_wrapper()
+        if base is not None and r < 0.22:
+            if r < 0.15:
+                return ['wrap', base, inj(), rng.random() < 0.25, rng.random() < 0.15,
+                        rng.random() < 0.2]
+            return ['get', base]
         r = rng.random()
         if r < 0.42:
             return ['use', pick_f(rng), [inj() for _ in range(rng.choice([1, 1, 1, 2, 2, 3]))],
                     rng.random() < 0.25, rng.random() < 0.15, rng.choice(['stack', 'stack', 'direct', 'using'])]
         if r < 0.54:
-            cands = [k for k, o in enumerate(case['ops']) if o[0] in ('use', 'map', 'userun')]
+            cands = [k for k, o in enumerate(case['ops']) if o[0] in USE_OPS]
             if cands:
                 return ['map', rng.choice(cands), pick_f(rng)]
             return ['use', pick_f(rng), [inj()], False, False, 'stack']
@@ -1102,7 +1180,24 @@ def gen_case(rng):
                 op[2] = pick_f(rng, op[2])
             else:
                 op[1] = rng.choice([k for k, o in enumerate(case['ops'])
-                                    if o[0] in ('use', 'map', 'userun')])
+                                    if o[0] in USE_OPS])
+        elif kind == 'wrap':
+            what = rng.randrange(6)
+            if what == 0:
+                op[1] = base_wrapper()
+            elif what == 1:
+                op[2][0] = ref()
+            elif what == 2:
+                op[2][1] = rng.choice([0, 1, 2, None])
+            elif what == 3:
+                op[2][2] = rng.choice([None, 0, 1])
+            elif what == 4:
+                op[3] = not op[3]
+            else:
+                op[4] = not op[4]
+            op[5] = rng.random() < 0.2
+        elif kind == 'get':
+            op[1] = base_wrapper()
         elif kind in ('make', 'userun'):
             m = op[2]
             what = rng.randrange(8)
@@ -1160,7 +1255,7 @@ def gen_case(rng):
 # --------------------------------------------------------------------------
 
 RULE = ('corpus (the reproduced cache collisions, stacked decorators, map/UseRun chains, name '
-        'clashes, a dependency cycle) + random histories of 2..12 operations (use / map / make / '
+        'clashes, a dependency cycle) + random histories of 2..12 operations (use / wrap a wrapper / get_task again / map / make / '
         'userun / task_stats / test_stats) over 16 functions (two named f, two lambdas, a partial '
         'named g; pairs sharing one code object: closures of one factory, lambdas of one loop, one '
         'method bound to two objects, partials of one function, exec of one source), 1..4 hand-made tasks, 1..3 factories (same-named ones), keys, positional / '
